@@ -178,6 +178,11 @@ def op_steps(mod, job):
                     out.append({"ok": True})
                 else:
                     out.append({"ok": True, "items": [v]})
+            elif op["kind"] == "X":
+                # what leaving a `for` loop early does once the iterator is collected
+                cur.close()
+                cur = None
+                out.append({"ok": True})
             elif op["kind"] == "I":
                 items = []
                 exhausted = False
